@@ -1633,7 +1633,7 @@ class TeX(object):
                                                    default='0', optspace=optspace), 8))
             # hex constant
             elif t == '"':
-                num = number(sign * int('0x' + self.readSequence(string.hexdigits,
+                num = number(sign * int('0x' + self.readSequence('0123456789ABCDEF',
                                                default='0', optspace=optspace), 16))
             # character token
             elif t == '`':
